@@ -80,7 +80,7 @@ def cases(rng, seeds):
                 out.append((f"fast_random_hypergraph(n={n},ps={p},order=2)",
                             P("random", n=n, sizes=[3], zero=[3] if p == 0 else [], one=[3] if p == 1 and n >= 3 else [],
                               norepeat=True), lambda n=n, p=p, s=s: xgi.fast_random_hypergraph(n, float(p), order=2, seed=s)))
-    for n, m in ((4, 2), (5, 3), (6, 2), (3, 3)):
+    for n, m in ((4, 2), (5, 3), (6, 2), (3, 3), (4, 1)):
         for p in probs:
             for multi in (False, True):
                 for s in seeds:
@@ -110,15 +110,16 @@ def cases(rng, seeds):
         out.append(("uniform_HPPM(n=6,m=2,k=2,epsilon=0.5)", P("random", n=6, sizes=[2], norepeat=False),
                     lambda s=s: xgi.uniform_HPPM(6, 2, 2, 0.5, seed=s)))
     # configuration-type models
-    for k in ({0: 1, 1: 2, 2: 3, 3: 2}, {0: 2, 1: 2, 2: 2}, {"a": 1, "b": 1, "c": 2}):
+    for k in ({0: 1, 1: 2, 2: 3, 3: 2}, {0: 2, 1: 2, 2: 2}, {"a": 1, "b": 1, "c": 2},
+              {(0, 0): 1, (0, 1): 2, (1, 0): 2, (1, 1): 1}, {frozenset({1}): 2, frozenset({2}): 1, frozenset({1, 2}): 1}):
         for m in (2, 3):
-            if sum(k.values()) % m:
-                continue
+            # a sum that m does not divide: documented to add one connection to (m - remainder) random nodes
+            slack = (m - sum(k.values()) % m) % m
             lab = list(k)
             inv = {x: i for i, x in enumerate(lab)}
             for s in seeds:
                 out.append((f"uniform_hypergraph_configuration_model(k={k},m={m})",
-                            P("config", m=m, nodes=[inv[x] for x in lab], maxdeg=[[inv[x], d] for x, d in k.items()]),
+                            P("config", m=m, n=slack, nodes=[inv[x] for x in lab], maxdeg=[[inv[x], d] for x, d in k.items()]),
                             (lambda k=k, m=m, s=s: xgi.uniform_hypergraph_configuration_model(dict(k), m, seed=s)), inv))
     for s in seeds:
         # prescribed degrees / sizes may be 0: the node is still part of the requested node set
@@ -149,7 +150,7 @@ def cases(rng, seeds):
     for l, c, m in ((3, 1, 3), (2, 2, 4), (4, 0, 2), (3, 2, 2), (1, 1, 3), (2, 3, 3)):
         out.append((f"sunflower({l},{c},{m})", P("sunflower", l=l, c=c, m=m), lambda l=l, c=c, m=m: xgi.sunflower(l, c, m)))
     for n in (1, 3, 4, 5):
-        for order in (1, 2, 3):
+        for order in (0, 1, 2, 3):
             out.append((f"complete_hypergraph({n},order={order})", P("complete", n=n, sizes=[order + 1]),
                         lambda n=n, order=order: xgi.complete_hypergraph(n, order=order)))
         for mo in (1, 2, 3):
